@@ -125,6 +125,9 @@ CloneOps(ts) ==
 SerdeOps(ts) ==
   \* place = "inplace": Deserialize::deserialize_in_place into a target that already holds a stale entry
   {[name |-> "serde", fmt |-> f, m |-> m, place |-> pl] : f \in {"json", "bincode"}, m \in {Len(ts), cap, cap + 1}, pl \in {"new", "inplace"}}
+  \* hand-made streams (repeated keys, one key too many) decoded into a container of this capacity
+  \cup (IF ts # <<>> THEN {}
+        ELSE {[name |-> "de_items", fmt |-> f, stream |-> it] : f \in {"json", "bincode"}, it \in UNION {ItemSeqsOf(n) : n \in 0..(cap + 1)}})
 
 \* "debug_w" / "display_w": the same renderings requested with a width / alignment in the format spec
 FmtStyles == {"debug", "alt", "display", "debug_w", "display_w", "display_alt"}
